@@ -91,6 +91,15 @@ func c10(r *Report) propMeta {
 	r.SameValue("penalise-the-checked-member", ot, ArgRef{"Keeper.GetMember", 1}, ArgRef{"Keeper.DeactivateMember", 1})
 	r.EffectSet("timeout-effects", ot, []string{"Keeper.ActivateMember", "Keeper.DeleteMember"}, nil)
 
+	// every idle member / every due signing is handled: the per-element loops have no early way out
+	r.LoopVisitsAll("penalise-every-idle-member", ot, "Keeper.DeactivateMember", LoopOpts{})
+	r.LoopVisitsAll("expire-every-due-signing", hes, "TSSCallback.OnSigningTimeout", LoopOpts{MaxOtherExits: 1}) // the reviewed `break` at the first entry that is not yet due (gated in R3)
+	r.LoopVisitsAll("aggregate-every-pending-signing", heb, "Keeper.AggregatePartialSignatures", LoopOpts{})
+	r.LoopVisitsAll("retry-every-failed-signing", heb, "Keeper.InitiateNewSigningRound", LoopOpts{})
+
+	r.Rule("C10.R6", "store-key agreement: every point read/delete addresses a written key family")
+	r.StoreKeyAgreement("store-keys", "tss", 35, nil)
+
 	return propMeta{
 		Decided: []string{
 			"R1 Signing.Status: SUCCESS only in AggregatePartialSignatures, FALLEN only in HandleFailedSigning, WAITING only in InitiateNewSigningRound / constructor; CurrentAttempt only ever incremented by one; the lifecycle functions are called only from HandleSigningEndBlock (and RequestSigning for the first round)",
@@ -98,6 +107,7 @@ func c10(r *Report) propMeta {
 			"R3 end-block aggregates before it expires; HandleFailedSigning only when the retry failed (writeFn on the other edge, see C05.R3); each outcome callback at most once per call; timeout callback gets GetMembersNotSubmitSignature of that signing only when the attempt is incomplete; interim data removed on both edges",
 			"R4 SubmitSignature queues aggregation exactly under count == len(assigned) read after its own AddPartialSignature, for the same attempt",
 			"R5 OnSigningTimeout deactivates only members that exist and are active, in the signing's group, through DeactivateMember",
+			"R6 every KV-store Get/Has/Delete of x/tss uses a key builder of x/tss/types that some Set of the module also uses (a probe of an iteration prefix or of a sibling family is always-empty state)",
 		},
 		Undecided: []string{"termination itself and 'timed out exactly then' (liveness over schedules)", "that InitiateNewSigningRound is only ever reached for WAITING signings (history invariant)"},
 		Assume:    []string{"VTA resolves the callback router to bandtss TSSCallback", "CacheContext isolation"},
